@@ -60,6 +60,7 @@ type Contract struct {
 	AtRead    []*AtSend // Field = name of a struct field: checked just before every load of that field
 	Props     []string
 	Inline    bool
+	InlineExplicit bool // `inline` written in the contract (kept when contracts are conjoined)
 	Trusted   bool
 	NilRecv   bool
 	Nilable   map[string]bool
@@ -603,6 +604,7 @@ func (e *Engine) loadContractFile(path string, pkg *types.Package) error {
 			lastClause = nil
 		case "inline":
 			cur.Inline = true
+			cur.InlineExplicit = true
 		case "trusted":
 			cur.Trusted = true
 		case "atsend":
@@ -921,5 +923,6 @@ func mergeContracts(old, c *Contract) {
 	old.Pure = old.Pure || c.Pure
 	old.NoSafety = old.NoSafety || c.NoSafety
 	old.MayPanic = old.MayPanic || c.MayPanic
-	old.Inline = false
+	old.InlineExplicit = old.InlineExplicit || c.InlineExplicit
+	old.Inline = old.InlineExplicit
 }
